@@ -1062,6 +1062,12 @@ func (h *H) opCustom(url string, remove bool, r *big.Int, period int64, q *big.I
 	}
 	err := h.deliver(msg)
 	if err != nil {
+		if remove {
+			// a removal carries nothing that could be malformed: governance HAS decided that the type has no custom parameters,
+			// whatever the message server answers; checkConfigured reports an entry the look-up still finds (round 5)
+			h.setConfigured(msg)
+			h.out.Count("custom:remove-refused")
+		}
 		h.out.Emit(op, "err:params "+h.observe().line)
 		h.out.Count("custom:err")
 		return
